@@ -486,8 +486,8 @@ func c05GenOp(t *rapid.T) c05Op {
 	switch op.Op {
 	case "write":
 		op.Lines = rapid.SliceOfN(rapid.Custom(c05GenLine), 0, 5).Draw(t, "lines")
-		op.CRLF = rapid.IntRange(0, 4).Draw(t, "crlf") == 0
-		op.NoNL = rapid.IntRange(0, 2).Draw(t, "nonl") == 0
+		op.CRLF = rapid.IntRange(0, 4).Draw(t, "crlf") == 4
+		op.NoNL = rapid.IntRange(0, 2).Draw(t, "nonl") == 2
 	case "enable":
 		op.On = rapid.Bool().Draw(t, "on")
 	case "grant":
